@@ -74,6 +74,7 @@ def _node_attrs(n):
          "defaults": {p: repr(n.get_default_for(p)) for p in n.inputs if n.has_default_for(p)},
          "types": {p: repr(n.get_input_type(p)) for p in n.inputs}, "wait_for": tuple(n.wait_for), "data_outputs": tuple(n.data_outputs)}
     d["map"] = repr(getattr(n, "map_config", None))
+    d["clone"] = repr(getattr(n, "_clone", None))  # map_over(clone=...) has no public accessor; absent attribute -> None on both sides
     if hasattr(n, "targets"):
         d["targets"] = repr(n.targets)
     return d
@@ -295,13 +296,28 @@ class State:
 
     def op_with_inputs(self, op):
         i = self._pick("node", op["n"])
+        names_first = []
+        if op.get("mapped"):
+            # prefer a mapping graph node, and among its inputs the mapped / cloned ones (configuration that must follow a rename
+            # on the NEW node only)
+            c = [k for k, o in enumerate(self.pool) if o.kind == "node" and getattr(o.obj, "map_config", None) is not None]
+            if c:
+                i = c[op["n"] % len(c)]
+                cfg = self.pool[i].obj.map_config[0]
+                cl = getattr(self.pool[i].obj, "_clone", None)
+                names_first = [x for x in (list(cl) if isinstance(cl, list) else []) + list(cfg) if x in self.pool[i].obj.inputs]
         if i is None:
             return
         n = self.pool[i].obj
-        m = self._batch(list(n.inputs), op, ["ia", "ib", "ic"])
+        names = list(dict.fromkeys(names_first + list(n.inputs)))
+        m = self._batch(names, op, ["ia", "ib", "ic"])
         if not m:
             return
         self._derive(i, lambda r, c=None: r.with_inputs(m), "node", f"with_inputs({m})")
+        if isinstance(getattr(n, "_clone", None), list) and set(m) & set(n._clone):
+            self.labels.add("renamed_a_cloned_input_of_a_mapping_node")
+        if getattr(n, "map_config", None) is not None and set(m) & set(n.map_config[0]):
+            self.labels.add("renamed_a_mapped_input_of_a_mapping_node")
 
     def op_with_outputs(self, op):
         i = self._pick("node", op["n"])
@@ -322,7 +338,36 @@ class State:
             return
         ps = list(dict.fromkeys(n.inputs[j % len(n.inputs)] for j in op["params"]))
         mode = op["mode"]
-        self._derive(i, lambda r, c=None: r.map_over(*ps, mode=mode), "node", f"map_over({ps})")
+        if op.get("clone", 0) >= 2 and len(n.inputs) >= 2 and len(ps) >= len(n.inputs):
+            ps = ps[:-1]  # leave a broadcast input that can be cloned
+        rest = [x for x in n.inputs if x not in ps]
+        clone = {0: False, 1: True}.get(op.get("clone", 0), rest[: 1 + op.get("clone", 0) % 2] if rest else True)
+        self._derive(i, lambda r, c=None: r.map_over(*ps, mode=mode, clone=clone), "node", f"map_over({ps}, clone={clone})")
+        if isinstance(clone, list):
+            self.labels.add("map_over_with_clone_list")
+
+    def op_nest_bound(self, op):
+        """A graph holding [g.bind(p=...).as_node(), sibling(p)]: the binding lives INSIDE the nested graph and the sibling shares
+        the parameter name (the shape in which a nested binding must not travel with later select / with_entrypoint derivations)."""
+        from hypergraph import Graph
+
+        i = self._pick("graph", op["g"])
+        if i is None:
+            return
+        g = self.pool[i].obj
+        names = [x for x in g.inputs.all if x not in g.inputs.bound]
+        if not names:
+            return
+        pname = names[op["p"] % len(names)]
+        self.fresh += 1
+        k = self.fresh
+        spec = {"k": "func", "name": f"sib{k}", "params": [pname], "defaults": {}, "outs": [f"so{k}"]}
+        val = ("nb", pname, k)
+
+        def fn(r, c):
+            return Graph([r.bind(**{pname: val}).as_node(name=f"nb{k}"), make_node(c, spec, "sync")], name=f"nest{k}")
+
+        self._derive(i, fn, "graph", f"nest_bound({pname})")
 
     def op_run(self, op):
         i = self._pick("graph", op["g"])
@@ -427,17 +472,21 @@ def machine(tier, ev, holder, guarded):
         def with_name(self, n):
             self._do({"op": "with_name", "n": n})
 
-        @rule(n=_idx, olds=_names, rot=st.integers(0, 5))
-        def with_inputs(self, n, olds, rot):
-            self._do({"op": "with_inputs", "n": n, "olds": olds, "rot": rot})
+        @rule(n=_idx, olds=_names, rot=st.integers(0, 5), mapped=st.booleans())
+        def with_inputs(self, n, olds, rot, mapped):
+            self._do({"op": "with_inputs", "n": n, "olds": olds, "rot": rot, "mapped": mapped})
 
         @rule(n=_idx, olds=_names, rot=st.integers(0, 5))
         def with_outputs(self, n, olds, rot):
             self._do({"op": "with_outputs", "n": n, "olds": olds, "rot": rot})
 
-        @rule(n=_idx, params=_names, mode=st.sampled_from(["zip", "product"]))
-        def map_over(self, n, params, mode):
-            self._do({"op": "map_over", "n": n, "params": params, "mode": mode})
+        @rule(n=_idx, params=_names, mode=st.sampled_from(["zip", "product"]), clone=st.sampled_from([0, 1, 2, 2, 3, 3]))
+        def map_over(self, n, params, mode, clone):
+            self._do({"op": "map_over", "n": n, "params": params, "mode": mode, "clone": clone})
+
+        @rule(g=_idx, p=st.integers(0, 9))
+        def nest_bound(self, g, p):
+            self._do({"op": "nest_bound", "g": g, "p": p})
 
         @rule(g=_idx)
         def run(self, g):
